@@ -3,7 +3,7 @@
    delimiters whose class depends on the next character) are checked on a finite list of
    representative lexeme sequences by evaluation of the model inside Coq.  These are statements
    about exactly the listed texts, nothing more.                                              *)
-From CssV Require Import Base Regex Gen.Productions Gen.TokTables Tokenizer Lexemes LexemeFacts.
+From CssV Require Import Base Regex RegexFacts LexemeRegex Gen.Productions Gen.TokTables Tokenizer Lexemes LexemeFacts.
 
 Fixpoint eq_tv (a b : list (str * str)) : bool :=
   match a, b with
@@ -147,4 +147,21 @@ Proof. vm_compute. repeat split; reflexivity. Qed.
 Lemma ratio_refuted :
   tok_is (s "4/3)") [T "NUMBER" "4"; T "CHAR" "/"; T "NUMBER" "3"; T "CHAR" ")"] = false /\
   tok_is (s "4/3)") [T "RATIO" "4/3"; T "CHAR" ")"] = true.
+Proof. vm_compute. split; reflexivity. Qed.
+
+(* ---- configuration: the classification is a function of the production list handed to try_prods.
+   settings.set('DXImageTransform.Microsoft', True) puts dx_production in front of the list; that changes
+   nothing for a text that does not start with 'p' (all c), and makes the progid text one FUNCTION token *)
+Lemma dx_irrelevant_lemma : forall c t dc prev, N.eqb c 112 = false ->
+  try_prods (dx_production :: productions) dc false prev (c :: t) = try_prods productions dc false prev (c :: t).
+Proof.
+  intros c t dc prev H. unfold dx_production. apply miss_fails. apply fc_fails; [reflexivity|].
+  unfold re_DX. cbn [fc nullable andb]. rewrite H. reflexivity.
+Qed.
+
+Lemma dx_function_example :
+  try_prods (dx_production :: productions) true false None (s "progid:DXImageTransform.Microsoft.Alpha(opacity=50)") =
+    Some (Step (s "FUNCTION") (s "progid:DXImageTransform.Microsoft.Alpha(") true) /\
+  try_prods productions true false None (s "progid:DXImageTransform.Microsoft.Alpha(opacity=50)") =
+    Some (Step (s "IDENT") (s "progid") true).
 Proof. vm_compute. split; reflexivity. Qed.
